@@ -183,9 +183,12 @@ def evaluate(case):
                 if new == "GK(r)" and kw["<b_coh>^2"] == 0.0:
                     new = "G(r)"
                 st.real_space_function = new
-                X = SHORT[new]
-                r0, g0, _ = getattr(tr, f"S_to_{X}")(q, s, st.dr, lorch=False, **kw)
-                ref = getattr(ff, f"{X}_using_S")(r0, g0, q, s, case["cutoff"], lorch=False, OmittedXrangeCorrection=case["lowq"], **kw)
+                if SHORT[new] != X:
+                    # (selecting the function that is selected already — the null-scattering fallback above — switches nothing: the curves
+                    # stored for it, on the grid they were computed on, stay the reference)
+                    X = SHORT[new]
+                    r0, g0, _ = getattr(tr, f"S_to_{X}")(q, s, st.dr, lorch=False, **kw)
+                    ref = getattr(ff, f"{X}_using_S")(r0, g0, q, s, case["cutoff"], lorch=False, OmittedXrangeCorrection=case["lowq"], **kw)
             if op == 7:
                 # halve-or-so the grid: same number of points as often as not, so that a stale pairing of a stored curve with the new
                 # grid is a wrong value rather than an exception
